@@ -46,6 +46,15 @@ CLAIMS = {
         "__init__ hands over exactly the final lists and the three mpe_from_plot methods pass those lists (frequencies and per-mode orders) to the extraction routine.",
    note="Trusted: pyvc executor, argsort/argmin/nanargmin contracts, list lemmas on permutations, Tk/matplotlib event delivery, plot_* abstracted (syntactic frame check), extraction routines havoc'ed at the hand-over (C11).",
    design="6 (C16)", technique="contract-based deductive verification: per-operation contracts + representation invariant (pyvc AST->VC, z3), native replay against a list-of-pairs model"),
+ "C14": dict(
+   text="Deductive proof of per-operation contracts over a representation invariant for SingleSetup (Inv_S: dt=1/fs, Ndat/Nch = array extents, T = Ndat*dt) and "
+        "MultiSetup_PreGER (Inv_M: data = reference/roving split of datasets, per-dataset counts and durations): __init__, decimate_data (every documented keyword combination), "
+        "detrend_data, filter_data (current fs), rollback, add_algorithms are executed from the real source with scipy as uninterpreted pure functions; each starts from an arbitrary "
+        "state satisfying the invariant, yields exactly the scipy term of the property on the current data and re-establishes the invariant, so the claim for every history follows "
+        "by induction. Frame: no array reachable from the pre-state is written in place; the initial copies stay the same objects. gen.pre_multisetup is proved against the "
+        "enumeration specification (listed order for references, ascending for roving).",
+   note="Trusted: pyvc executor, scipy signatures/shape behaviour as uninterpreted functions, deepcopy, enumeration lemmas. One open finding (duration T after decimation) is pinned by existing tests and listed in known_findings.jsonl.",
+   design="6 (C14)", technique="contract-based deductive verification: representation invariant + per-operation contracts (pyvc AST->VC, z3), native replay of histories against a scipy model"),
 }
 NOT_APPLICABLE = {
  "C07": "accuracy tolerance (2.5 % / 15 %) of a floating-point FFT/peak-picking/regression pipeline: no contract over exact reals can state or discharge it (DESIGN.md section 8); its scale-invariance clause is covered under C08",
